@@ -32,9 +32,10 @@ type Thread struct {
 }
 
 type BlockRec struct {
-	Cond *Term // thread is parked exactly here (path guard ∧ C == Hi_final) and the op is disabled
-	What string
-	Pos  string
+	Parked *Term         // thread is parked exactly here (path guard ∧ C == Hi_final)
+	En     func() *Term  // enabledness re-evaluated in the final memory
+	What   string
+	Pos    string
 }
 
 type thrInput struct {
@@ -44,8 +45,19 @@ type thrInput struct {
 
 const cntW = 16
 
+// inWin: window test for a visible operation (index C executes iff Lo <= C < Hi).
 func (t *Thread) inWin(u *Univ) *Term {
 	return u.And(u.Cmp(OUle, t.Lo, t.C), u.Cmp(OUlt, t.C, t.Hi))
+}
+
+// inWinPlain: plain (thread-local or lock-protected) code runs eagerly right
+// after the visible operation that precedes it: count C belongs to the round
+// that executed visible operation C-1; the code before the first visible
+// operation runs when the thread is started.
+func (t *Thread) inWinPlain(u *Univ) *Term {
+	zero := u.Eq(t.C, u.Const(cntW, 0))
+	first := u.Bool(t.Round == 1)
+	return u.Or(u.And(zero, first), u.And(u.Cmp(OUlt, t.Lo, t.C), u.Cmp(OUle, t.C, t.Hi)))
 }
 
 // visible marks a scheduling point executed under path guard g.
@@ -55,6 +67,14 @@ func (x *Exec) visible(g *Term, what string) {
 	}
 	t := x.thr
 	t.C = x.U.Ite(g, x.U.BV(OAdd, t.C, x.U.Const(cntW, 1)), t.C)
+	x.vis = false
+}
+
+// beginVis: the following effects belong to a visible operation.
+func (x *Exec) beginVis() {
+	if x.thr != nil {
+		x.vis = true
+	}
 }
 
 // persist keeps the result of an impure read across rounds.
@@ -74,7 +94,7 @@ func (x *Exec) persist(f *frame, ins ssa.Instruction, g *Term, v Value) Value {
 // blocking: the operation is enabled iff en. In safety mode a disabled
 // execution is pruned (an equivalent run schedules the thread later); the
 // parked state is recorded for deadlock queries.
-func (x *Exec) blocking(g *Term, en *Term, what string, pos token.Pos) {
+func (x *Exec) blocking(g *Term, en *Term, enLater func() *Term, what string, pos token.Pos) {
 	if x.thr == nil {
 		if !en.IsTrue() {
 			x.oblige("deadlock", x.U.And(g, x.U.Not(en)), what+" would block forever in sequential code", pos)
@@ -84,9 +104,9 @@ func (x *Exec) blocking(g *Term, en *Term, what string, pos token.Pos) {
 	t := x.thr
 	x.Assume(g, en, "")
 	// parked here at the end of the run: path reaches this op, C == final Hi
-	if t.Round == x.Cfg.Rounds {
+	if t.Round == x.Cfg.Rounds && enLater != nil {
 		parked := x.U.AndN(g, x.U.Eq(t.C, t.Hi))
-		t.BlockedAt = append(t.BlockedAt, BlockRec{Cond: x.U.And(parked, x.U.Not(en)), What: what, Pos: x.pos(pos)})
+		t.BlockedAt = append(t.BlockedAt, BlockRec{Parked: parked, En: enLater, What: what, Pos: x.pos(pos)})
 	}
 }
 
@@ -108,6 +128,7 @@ func (x *Exec) condWait(f *frame, ins ssa.Instruction, p PtrV, g *Term) {
 	i32 := types.Typ[types.Int32]
 	u32 := types.Typ[types.Uint32]
 	// step A: atomically unlock L and remember the generation
+	x.beginVis()
 	x.raceAccess(gp, 1, g, false, true, ins.Pos())
 	st := x.loadRaw(mu, i32).(*Term)
 	x.oblige("unlock", u.And(g, u.Eq(st, u.Const(32, 0))), "Cond.Wait with L not held", ins.Pos())
@@ -118,7 +139,13 @@ func (x *Exec) condWait(f *frame, ins ssa.Instruction, p PtrV, g *Term) {
 	gen1 := x.loadRaw(gp, u32).(*Term)
 	st1 := x.loadRaw(mu, i32).(*Term)
 	en := u.And(u.Not(u.Eq(gen1, gen0)), u.Eq(st1, u.Const(32, 0)))
-	x.blocking(g, en, "Cond.Wait (waiting for Broadcast)", ins.Pos())
+	x.beginVis()
+	later := func() *Term {
+		g1 := x.loadRaw(gp, u32).(*Term)
+		s1 := x.loadRaw(mu, i32).(*Term)
+		return u.And(u.Not(u.Eq(g1, gen0)), u.Eq(s1, u.Const(32, 0)))
+	}
+	x.blocking(g, en, later, "Cond.Wait (waiting for Broadcast)", ins.Pos())
 	x.storeRaw(mu, i32, u.Const(32, 1), x.act(g))
 	x.visible(g, "Cond.Wait/resume")
 }
@@ -170,10 +197,22 @@ func (x *Exec) par(f *frame, ins ssa.Instruction, fs SliceV, g *Term) {
 		}
 	}
 	// safety mode: every thread ran to completion
+	allFin := u.True
+	noneStuck := u.True
 	for _, t := range thrs {
-		fin := u.Cmp(OUlt, t.CEnd, t.Hi)
+		fin := u.Cmp(OUle, t.CEnd, t.Hi)
 		x.parFinished = append(x.parFinished, fin)
+		allFin = u.And(allFin, fin)
+		blocked := u.False
+		for _, b := range t.BlockedAt {
+			blocked = u.Or(blocked, u.And(b.Parked, u.Not(b.En())))
+		}
+		noneStuck = u.And(noneStuck, u.Or(fin, blocked))
 	}
+	// deadlock: somebody is unfinished and every unfinished thread is parked at
+	// a blocking operation that is disabled in the final memory
+	x.Obligs = append(x.Obligs, Oblig{Kind: "deadlock", Cond: u.And(u.Not(allFin), noneStuck), NoFinish: true,
+		Msg: "deadlock or lost wake-up: every unfinished thread is parked at a disabled blocking operation", Pos: x.pos(ins.Pos())})
 }
 
 // ---------- race detection hooks (filled in by race.go) ----------
